@@ -138,6 +138,9 @@ mod ref_cnt;
 #[cfg(feature = "serde")]
 mod serde;
 pub mod strategy;
+#[cfg(arc_swap_verif)]
+#[doc(hidden)]
+pub mod verif;
 #[cfg(feature = "weak")]
 mod weak;
 
@@ -147,7 +150,12 @@ use core::marker::PhantomData;
 use core::mem;
 use core::ops::Deref;
 use core::ptr;
+#[cfg(not(arc_swap_verif))]
 use core::sync::atomic::{AtomicPtr, Ordering};
+#[cfg(arc_swap_verif)]
+use crate::verif::AtomicPtr;
+#[cfg(arc_swap_verif)]
+use core::sync::atomic::Ordering;
 
 use alloc::sync::Arc;
 
